@@ -158,6 +158,12 @@ class ServerExtractor:
                 continue
             if isinstance(st, ast.Assign) and src(st.targets[0]) == "self.recv_msg_handler":
                 ops.append(".buildDispatch"); continue
+            if s == "self.refresh_service_state()":
+                rf = find_func(self.tree, "refresh_service_state", "Service")
+                body = [b for b in rf.body if not is_doc(b) and not is_logger(b)]
+                if len(body) == 1 and isinstance(body[0], ast.If):
+                    st = ast.parse(src(body[0]).replace("self.sid", "sid")).body[0]
+                    s = src(st)
             if isinstance(st, ast.If) and src(st.test) == "FileManager.check_sid_folder_exist(sid)":
                 def branch(body):
                     o = []
@@ -297,15 +303,24 @@ def manager_ir(repo):
     """services_manager.create_service / clean_service_when_close_connection as ordered steps"""
     p = os.path.join(repo, "frontend/server/services/services_manager.py")
     tree = ast.parse(open(p).read())
+    WAIT_TEST = "sid in self._service_dict or waiting[0] is not service"
+    WAIT_FOR = "await self._access_dict_lock.wait_for(lambda: sid not in self._service_dict and waiting[0] is service)"
 
     def steps(fn):
         ops = []
-        for st in fn.body:
+        body = list(fn.body)
+        i = 0
+        while i < len(body):
+            st = body[i]
             s = src(st)
+            i += 1
             if is_logger(st) or is_doc(st) or s.startswith("short_sid ="):
                 continue
             if s == "service = Service(sid, websocket)":
                 ops.append(".construct"); continue
+            if s == "waiting = self._waiting_dict.setdefault(sid, [])" and i < len(body) and src(body[i]) == "waiting.append(service)":
+                i += 1
+                ops.append(".enqueue"); continue
             if isinstance(st, ast.If) and src(st.test) == "sid in self._service_dict":
                 inner = []
                 for b in st.body:
@@ -323,8 +338,14 @@ def manager_ir(repo):
                 inner = []
                 for b in st.body:
                     t = src(b)
+                    if isinstance(b, ast.If) and src(b.test) == WAIT_TEST and not b.orelse:
+                        bb = [x for x in b.body if not is_logger(x) and not src(x).startswith("reason =")]
+                        if len(bb) == 2 and src(bb[0]).startswith("service.send_message(MsgType.CONTROL") and src(bb[1]) == WAIT_FOR:
+                            inner.append(".waitTurn"); continue
                     mp = {"self._service_dict[sid] = service": ".register", "await asyncio.sleep(1)": ".sleep",
-                          "self._service_dict[sid].close_service()": ".closeService", "del self._service_dict[sid]": ".delEntry"}
+                          "self._service_dict[sid].close_service()": ".closeService", "del self._service_dict[sid]": ".delEntry",
+                          "waiting.pop(0)": ".dequeue", "service.refresh_service_state()": ".refresh",
+                          "self._access_dict_lock.notify_all()": ".notifyAll"}
                     inner.append(mp.get(t, f".unknown {lean_str(t)}"))
                 ops.append(f".locked [{', '.join(inner)}]"); continue
             mp = {"clean_task = asyncio.create_task(self.clean_service_when_close_connection(sid, websocket))": ".spawnCleanup",
@@ -332,8 +353,17 @@ def manager_ir(repo):
                   "await websocket.wait_closed()": ".awaitClosed"}
             ops.append(mp.get(s, f".unknown {lean_str(s)}"))
         return ops
+    # the registry primitives are asyncio's: which kind of lock guards the registry
+    init = find_func(tree, "__init__", "ServicesManager")
+    kind = "unknown"
+    for st in init.body:
+        if src(st) == "self._access_dict_lock = asyncio.Condition()":
+            kind = "condition"
+        if src(st) == "self._access_dict_lock = asyncio.Lock()":
+            kind = "lock"
     return {"create_service": steps(find_func(tree, "create_service", "ServicesManager")),
-            "clean_service_when_close_connection": steps(find_func(tree, "clean_service_when_close_connection", "ServicesManager"))}
+            "clean_service_when_close_connection": steps(find_func(tree, "clean_service_when_close_connection", "ServicesManager")),
+            "lock_kind": kind}
 
 
 def emit_server(repo):
@@ -362,6 +392,7 @@ def emit_server(repo):
         ("fmCheckDir", lst(fm["check_sid_folder_exist"])),
         ("mgrCreate", lst(mg["create_service"])),
         ("mgrCleanup", lst(mg["clean_service_when_close_connection"])),
+        ("mgrLockIsCondition", "true" if mg["lock_kind"] == "condition" else "false"),
     ]
     L = ["/- GENERATED by harness/translate/frontend_ir.py from frontend/server/** — do not edit. -/",
          "import SSEPyVerif.Model.ServerIR", "namespace SSEPy.Generated", "open SSEPy.ServerIR", "",
